@@ -4,6 +4,7 @@ The driver owns the datasets (their executors log every call), keeps a registry 
 it ever created, and after *every* API event calls the monitors (online checking)."""
 import ast
 import asyncio
+import copy
 import itertools
 import threading
 from typing import Iterable
@@ -21,6 +22,53 @@ class Sentinel:
 
     def __repr__(self):
         return f"<result#{self.n}>"
+
+
+class Deferred:
+    """an executor result that is itself awaitable (a job handle): value() hands it to the caller as it is"""
+
+    def __init__(self, n):
+        self.n = n
+
+    def __await__(self):
+        yield from ()
+        return ("payload-of-deferred", self.n)
+
+    def __repr__(self):
+        return f"<Deferred#{self.n}>"
+
+
+def vandalise(a):
+    """what a back end may do with the AST it was handed (its own copy): edit it in place, also with the library's own exported
+    transformers. Nothing of this may show in any stream."""
+    from func_adl.ast.aggregate_shortcuts import aggregate_node_transformer
+    from func_adl.ast.func_adl_ast_utils import change_extension_functions_to_calls
+    from func_adl.ast.meta_data import extract_metadata
+
+    for n in list(astx.walk_nodes(a)):
+        if isinstance(n, ast.Call):
+            n.keywords.append(ast.keyword(arg="added_by_backend", value=ast.Constant(value=1)))
+            n.args.append(ast.Constant(value="backend"))
+        elif isinstance(n, ast.Lambda):
+            n.args.defaults.append(ast.Constant(value=0))
+            n.args.kwonlyargs.append(ast.arg(arg="backend_kw"))
+            n.args.kw_defaults.append(None)
+        elif isinstance(n, ast.Name):
+            n.id = n.id + "_b"
+        elif isinstance(n, ast.Attribute):
+            n.attr = n.attr + "_b"
+        elif isinstance(n, ast.Constant) and isinstance(n.value, (int, float)) and not isinstance(n.value, bool):
+            n.value = n.value + 1000
+        elif isinstance(n, (ast.Tuple, ast.List)):
+            n.elts.append(ast.Constant(value="backend"))
+        elif isinstance(n, ast.Dict):
+            n.keys.append(ast.Constant(value="backend"))
+            n.values.append(ast.Constant(value=1))
+    for f in (extract_metadata, change_extension_functions_to_calls, lambda x: aggregate_node_transformer().visit(x)):
+        try:
+            f(a)
+        except Exception:
+            pass
 
 
 class ExecFailure(Exception):
@@ -170,7 +218,8 @@ class History:
 
             async def execute_result_async(self, a, title=None):
                 n = next(_uid)
-                rec = {"ev": "enter", "n": n, "ds": self.name, "self": self, "ast_id": id(a), "dump": astx.dump_fields(a), "title": title, "ast": a,
+                # (when this executor is going to edit the AST it was handed, the monitors get a private copy taken on entry)
+                rec = {"ev": "enter", "n": n, "ds": self.name, "self": self, "ast_id": id(a), "dump": astx.dump_fields(a), "title": title, "ast": astx.snapshot(a) if n % 4 == 2 else a,
                        "building": hist.building, "thread": threading.get_ident()}
                 with hist.lock:
                     hist.log.append(rec)
@@ -184,8 +233,10 @@ class History:
                         hist.log.append({"ev": "leave", "n": n, "ds": self.name, "exc": exc, "dump_after": dump_after})
                     raise exc
                 res = Sentinel(n)
-                shape = n % 5  # results of every shape: identity must survive value()
-                if shape == 1:
+                shape = n % 6  # results of every shape: identity must survive value()
+                if shape == 5:
+                    res = Deferred(n)
+                elif shape == 1:
                     res = [res]
                 elif shape == 2:
                     res = {"k": res}
@@ -193,6 +244,9 @@ class History:
                     res = (res, n)
                 with hist.lock:
                     hist.log.append({"ev": "leave", "n": n, "ds": self.name, "result": res, "dump_after": dump_after})
+                if n % 4 == 2:
+                    hist.mode_counts["executor-edits-its-ast-in-place"] = hist.mode_counts.get("executor-edits-its-ast-in-place", 0) + 1
+                    vandalise(a)
                 return res
 
         self.HDS = HDS
@@ -275,9 +329,19 @@ class History:
             self.building -= 1
         if d != before or list(d) != list(before):
             self.callers_dict_modified.append((dict(before), dict(d)))
-        ne = self._register(s, e.kind, e.ds, e, f"QMetaData({d!r})")
+        ne = self._register(s, e.kind, e.ds, e, f"QMetaData({before!r})")
         ne.terminal = e.terminal
-        self._event("QMetaData", {"on": e.id, "new": ne.id, "dict": d})
+        self._event("QMetaData", {"on": e.id, "new": ne.id, "dict": before})
+        if self.rnd.random() < 0.5:
+            # the caller goes on using its dictionary (a settings dict updated in a loop): the stream must not follow
+            if self.rnd.random() < 0.5:
+                d["set-after-the-call"] = self.step
+                for k in list(before):
+                    d[k] = "changed-after-the-call"
+            else:
+                d.clear()
+            self.mode_counts["caller-dict-changed-after-QMetaData"] = self.mode_counts.get("caller-dict-changed-after-QMetaData", 0) + 1
+            self._event("caller-changed-its-dict", {"on": ne.id})
         return ne
 
     def terminal(self, e):
